@@ -11,6 +11,7 @@ import (
 	"testing"
 	"time"
 	"verif/harness/guard"
+	"verif/harness/hold"
 
 	codec "github.com/uhppoted/uhppote-core/encoding/UTO311-L0x"
 	"github.com/uhppoted/uhppote-core/messages"
@@ -79,6 +80,8 @@ func try(f func()) (p any) {
 	f()
 	return nil
 }
+
+var heldEncodings = &hold.Keeper{Every: 4000}
 
 func decideRT(c rtCase) (fail *rp.Fail, key string, nontrivial bool) {
 	zones.With(zones.Loc(c.Zone), func() { fail, key, nontrivial = decideRTNoZone(c) })
@@ -161,6 +164,17 @@ func decideRTNoZone(c rtCase) (*rp.Fail, string, bool) {
 		if len(enc) != 64 || enc[0] != wantSOM || enc[1] != layout.Code {
 			fail = rp.Failf("codec.Marshal/header", "%s: encoding has length %d, header %x; want 64 bytes starting %02x %02x", typeName, len(enc), enc[:2], wantSOM, layout.Code)
 			return
+		}
+		// the encoding is kept (the way a caller queues a message for sending) across garbage collections and later Marshal calls
+		if kept, err := codec.Marshal(proto); err == nil {
+			if msg := heldEncodings.Keep(kept, fmt.Sprintf("the encoding of a %s", typeName), func() {
+				for i := 0; i < 32; i++ {
+					codec.Marshal(proto)
+				}
+			}); msg != "" {
+				fail = rp.Failf("codec.Marshal/result-changed-later", "%s", msg)
+				return
+			}
 		}
 		for _, off := range layout.Unused() {
 			if enc[off] != 0 {
